@@ -36,6 +36,9 @@ def cases_A(tier):
         if tier == "quick" and rep == 1800 and (mult != 1.0 or pstep != 3600):
             continue
         out.append({"part": "A", "la": la, "lb": lb, "pstep": pstep, "pstart": pstart, "mult": mult, "rep": rep})
+        if la != lb and rep == 3600 and (tier == "thorough" or mult == 1.0):
+            # layout 1: pattern pb is used ONLY by a second demand entry (no junction has it as its first pattern)
+            out.append({"part": "A", "la": la, "lb": lb, "pstep": pstep, "pstart": pstart, "mult": mult, "rep": rep, "lay": 1})
     return out
 
 
@@ -51,11 +54,12 @@ def build_A(s):
     wn.add_reservoir("R", base_head=60.0)
     wn.add_junction("J1", base_demand=0.01, demand_pattern="pa", elevation=5.0, demand_category="dom")
     wn.get_node("J1").add_demand(0.004, "pb", "ind")
-    wn.add_junction("J2", base_demand=0.02, demand_pattern="pb", elevation=2.0, demand_category="dom")
+    p2 = "pa" if s.get("lay") else "pb"
+    wn.add_junction("J2", base_demand=0.02, demand_pattern=p2, elevation=2.0, demand_category="dom")
     wn.get_node("J2").add_demand(0.003, None, "ind")
     wn.add_pipe("p1", "R", "J1", length=300, diameter=0.3, roughness=100)
     wn.add_pipe("p2", "J1", "J2", length=300, diameter=0.3, roughness=100)
-    dem = {"J1": [(0.01, "pa", "dom"), (0.004, "pb", "ind")], "J2": [(0.02, "pb", "dom"), (0.003, None, "ind")]}
+    dem = {"J1": [(0.01, "pa", "dom"), (0.004, "pb", "ind")], "J2": [(0.02, p2, "dom"), (0.003, None, "ind")]}
     return wn, dem
 
 
